@@ -778,7 +778,12 @@ public:
       {
         std::lock_guard<std::mutex> lock(_mutex);
         auto drainExpected = LifecycleState::Draining;
-        if (_lifecycleState.compare_exchange_strong(
+        // A drain issued by stop() is not retried: stop() goes on and forces the
+        // shutdown, so the service must stay closed. Re-opening it here left
+        // _accepting set for good — timers scheduled while stop() was finishing,
+        // and after it had returned, were accepted and never fired.
+        if (!_stopInProgress.load(std::memory_order_acquire) &&
+            _lifecycleState.compare_exchange_strong(
               drainExpected, LifecycleState::Running,
               std::memory_order_acq_rel, std::memory_order_acquire))
         {
@@ -818,6 +823,7 @@ public:
     // If in Running state, drain first
     if (currentState == LifecycleState::Running)
     {
+      _stopInProgress.store(true, std::memory_order_release);
       auto drainResult = drain(5000); // 5 second drain timeout
       if (!drainResult.success)
       {
@@ -967,6 +973,7 @@ private:
       addEpollFd(_timerFd, EPOLLIN);
       addEpollFd(_eventFd, EPOLLIN);
 
+      _stopInProgress.store(false, std::memory_order_release);
       _running.store(true, std::memory_order_release);
       _thread = std::thread([this]() { this->runLoop(); });
 
@@ -1546,6 +1553,7 @@ private:
   // Lifecycle management
   std::atomic<iora::common::LifecycleState> _lifecycleState{iora::common::LifecycleState::Created};
   std::atomic<bool> _accepting{false};
+  std::atomic<bool> _stopInProgress{false};          // stop() has begun: a timed-out drain must not re-open the service
   std::atomic<std::uint32_t> _executingCallbacks{0}; // Callbacks in safeRun(), not in _records
   std::condition_variable _drainCV;                   // notified when drain may complete
 };
